@@ -8,6 +8,7 @@ import SqlLineage.IO.Config
 import SqlLineage.IO.Graph
 import SqlLineage.IO.Sql
 import SqlLineage.IO.PathSec
+import SqlLineage.IO.Names
 import SqlLineage.IO.Chain
 
 open Lean
@@ -25,6 +26,12 @@ def handlers : List (String × (Json → Except String Json)) := [
   ("path", SqlLineage.IO.PathSec.handleOne),
   ("pathbatch", SqlLineage.IO.PathSec.handleBatch),
   ("pathlib", SqlLineage.IO.PathSec.handlePathlib),
+  ("ident", SqlLineage.IO.Names.handleIdent),
+  ("namesBatch", SqlLineage.IO.Names.handleBatch),
+  ("namesOf", SqlLineage.IO.Names.handleOf),
+  ("namesSrc", SqlLineage.IO.Names.handleSrc),
+  ("namesSites", SqlLineage.IO.Names.handleSites),
+  ("namesEq", SqlLineage.IO.Names.handleEq),
   ("chain", SqlLineage.IO.Chain.handleChain)
 ]
 
